@@ -151,8 +151,9 @@ def r12(chk, m, tokmod, Context):
         chk.decide(R, key, rets, {('return', repr(want))},
                    'a character that is only in category class %s is reported as %s (expected %d)'
                    % (CC[k] if k is not None else 'none', sorted(rets), want), chk.where(fn), 'returns %s' % sorted(rets))
-    env = module_env(m, tokmod, ['DEFAULT_CATEGORIES', 'VERBATIM_CATEGORIES'])
-    d, v = env.get('DEFAULT_CATEGORIES'), env.get('VERBATIM_CATEGORIES')
+    # the tables as the Tokenizer module sees them (defined there or imported from wherever they live)
+    it0 = A.Interp(model=m, scope=tokmod, exc_edges=False, heap=True)
+    d, v = (it0.ev(ast.Name(id=nm, ctx=ast.Load()), A.State({})) for nm in ('DEFAULT_CATEGORIES', 'VERBATIM_CATEGORIES'))
     need(isinstance(d, list) and isinstance(v, list), 'category tables do not fold')
     ok = len(d) == 16 and d[OTH] == '' and all(isinstance(x, str) for x in d)
     chars = [c for i, x in enumerate(d) if not isinstance(x, M._StringLetters) for c in x]
